@@ -240,3 +240,118 @@ package client
 //@   loop 0 invariant 0 <= _i && _i <= len(m.Indexes) && m != nil && len(m.Indexes) == count && readn(r, _i)
 //@   loop 0 invariant sinceloop(forall(k, 0, _i, m.Indexes[k] == uint32(tokval(r, old(rpos(r)) + k))))
 //@   loop 0 invariant sinceloop(same(m.Indexes, m.Tx) && oldrowsExcept(m.Indexes, arr(m.Indexes)))
+
+// ---------------------------------------------------------------------------------------
+// RemoteClient: message-id gate (C17) and server authentication (C18)
+
+//@ spec nextID(c) = ival(aval(c.nextMessageID))
+
+// What the signature of an accept message covers: the key, the three counts and the session hash,
+// in this order (digest32 = Hash32 of sha256 over the tokens written into the hash state).
+//@ spec accDigest(m, h) = digest32(objkind(bitcoin.PublicKey), m.Key, 1, m.PushDataCount, 1, m.UTXOCount, 1, m.MessageCount, objkind(bitcoin.Hash32), h)
+
+//@ func (AcceptRegister).SigHash
+//@   serves C18
+//@   ensures digest: [C18] result1 == nil ==> result0 != nil && *result0 == accDigest(m, h)
+
+//@ func (*RemoteClient).handleMessage
+//@   serves C17 C18
+//@   opt nomonitor = 1
+//@   opt partial = 1
+//@   requires c != nil && m != nil && typeis(aval(c.nextMessageID), uint64)
+//@   ensures tx_match: [C17] typeis(m.Payload, *Tx) && as(m.Payload, *Tx).ID == old(nextID(c)) ==> nextID(c) == uint64(old(nextID(c)) + 1)
+//@   ensures tx_skip: [C17] typeis(m.Payload, *Tx) && as(m.Payload, *Tx).ID != old(nextID(c)) ==> nextID(c) == old(nextID(c))
+//@   ensures update_match: [C17] typeis(m.Payload, *TxUpdate) && as(m.Payload, *TxUpdate).ID == old(nextID(c)) ==> nextID(c) == uint64(old(nextID(c)) + 1)
+//@   ensures update_skip: [C17] typeis(m.Payload, *TxUpdate) && as(m.Payload, *TxUpdate).ID != old(nextID(c)) ==> nextID(c) == old(nextID(c))
+//@   ensures others_keep_id: [C17] !typeis(m.Payload, *Tx) && !typeis(m.Payload, *TxUpdate) ==> aval(c.nextMessageID) == old(aval(c.nextMessageID))
+//@   assert offer_gate at call addHandlerMessage : [C17] (typeis(m.Payload, *Tx) ==> as(m.Payload, *Tx).ID == old(nextID(c)) && nextID(c) == uint64(old(nextID(c)) + 1))
+//@        && (typeis(m.Payload, *TxUpdate) ==> as(m.Payload, *TxUpdate).ID == old(nextID(c)) && nextID(c) == uint64(old(nextID(c)) + 1))
+//@   assert accept_guard at call Store(accepted) : [C18] typeis(m.Payload, *AcceptRegister) && KeyEq(as(m.Payload, *AcceptRegister).Key, c.serverSessionKey)
+//@        && SigVerify(as(m.Payload, *AcceptRegister).Signature, accDigest(*as(m.Payload, *AcceptRegister), c.hash), as(m.Payload, *AcceptRegister).Key)
+//@   assert handshake_guard at call Store(handshakeComplete) : [C18] typeis(m.Payload, *AcceptRegister) && KeyEq(as(m.Payload, *AcceptRegister).Key, c.serverSessionKey)
+//@        && SigVerify(as(m.Payload, *AcceptRegister).Signature, accDigest(*as(m.Payload, *AcceptRegister), c.hash), as(m.Payload, *AcceptRegister).Key)
+//@   assert accept_offer at call addHandlerMessage : [C18] typeis(m.Payload, *AcceptRegister) ==> KeyEq(as(m.Payload, *AcceptRegister).Key, c.serverSessionKey)
+//@        && SigVerify(as(m.Payload, *AcceptRegister).Signature, accDigest(*as(m.Payload, *AcceptRegister), c.hash), as(m.Payload, *AcceptRegister).Key)
+
+//@ func (*RemoteClient).NextMessageID
+//@   serves C17
+//@   requires c != nil && typeis(aval(c.nextMessageID), uint64)
+//@   ensures value: result == nextID(c)
+
+//@ func (*RemoteClient).Ready
+//@   serves C17 C18
+//@   opt nomonitor = 1
+//@   requires c != nil
+//@   ensures declared: result == nil ==> typeis(aval(c.nextMessageID), uint64) && nextID(c) == ite(nextMessageID == 0, 1, nextMessageID)
+//@   assert ready_is_handshake at call sendDirect : [C18] isHS(PayloadType(arg2.Payload))
+//@   ensures failed_keeps: result != nil ==> aval(c.nextMessageID) == old(aval(c.nextMessageID)) && aval(c.handshakeComplete) == old(aval(c.handshakeComplete))
+
+// ---- what may be written to a connection before the handshake is complete (C18) ----
+
+//@ spec isHS(t) = t == 1 || t == 30 || (11 <= t && t <= 20)
+
+//@ func IsHandshakeType
+//@   serves C18
+//@   ensures exact: result <==> isHS(t)
+
+// Every MessagePayload implementation lives in this package: a call through the interface
+// writes at most what those implementations write (their inferred frames).
+//@ type MessagePayload
+//@   closed
+
+//@ func (*RemoteClient).sendMessage
+//@   serves C18
+//@   opt nomonitor = 1
+//@   opt partial = 1
+//@   requires c != nil && msg != nil && typeis(aval(c.handshakeComplete), bool) && typeis(aval(c.isReconnecting), bool)
+//@   loop 0 invariant true
+//@   loop 1 invariant true
+//@   assert direct_gate at call sendDirect : [C18] !bval(aval(c.handshakeComplete)) && isHS(PayloadType(msg.Payload))
+
+// The send loop of a connection writes queued requests only after it has received the
+// handshake-complete token of that connection.
+//@ func sendMessages
+//@   serves C18
+//@   opt partial = 1
+//@   loop 0 invariant nrecv(handshakeComplete) > old(nrecv(handshakeComplete))
+//@   assert queued_after_handshake at call Serialize : [C18] nrecv(handshakeComplete) > old(nrecv(handshakeComplete))
+
+// Every connection starts unauthenticated, with its own handshake gate: the flags are reset and
+// the handshake-complete channel is one made for this connection (a token left in the channel
+// of an earlier connection cannot open the gate of this one).
+//@ func (*RemoteClient).runConnection
+//@   serves C18
+//@   opt nomonitor = 1
+//@   opt partial = 1
+//@   requires c != nil
+//@   assert reset_accepted at call Store(accepted) : [C18] !bval(arg1)
+//@   assert reset_handshake at call Store(handshakeComplete) : [C18] !bval(arg1)
+//@   assert own_gate at call Store(handshakeCompleteChannel) : [C18] fresh(ival(arg1))
+
+// The session of a connection: a new random hash, the server session key derived from the
+// configured server key and that hash, the client session key from the client key and that hash.
+//@ func (*RemoteClient).generateSession
+//@   serves C18
+//@   opt nomonitor = 1
+//@   requires c != nil
+//@   loop 0 invariant nseed() >= old(nseed())
+//@   ensures fresh_hash: [C18] result1 == nil ==> nseed() > old(nseed()) && c.hash == SeedAt(nseed() - 1)
+//@   ensures derived_keys: [C18] result1 == nil ==> c.serverSessionKey == NextPublicKeyOf(config.ServerKey, c.hash) && c.sessionKey == NextKeyOf(config.ClientKey, c.hash)
+//@   ensures returns_hash: [C18] result1 == nil ==> result0 != nil && *result0 == c.hash
+
+// The register message written to a new connection carries the client's public key and the
+// session hash and is signed by the configured client key over its own signature hash.
+//@ spec regDigest(r) = digest32(fixedkind(uint8), r.Version, objkind(bitcoin.PublicKey), r.Key, objkind(bitcoin.Hash32), r.Hash,
+//@        fixedkind(uint32), r.StartBlockHeight, objkind(bitcoin.Hash32), r.ChainTip, fixedkind(uint8), r.ConnectionType)
+
+//@ func (Register).SigHash
+//@   serves C18
+//@   ensures digest: [C18] result1 == nil ==> result0 != nil && *result0 == regDigest(m)
+
+//@ func (*RemoteClient).connect
+//@   serves C18
+//@   opt nomonitor = 1
+//@   opt partial = 1
+//@   requires c != nil && typeis(aval(c.config), Config) && typeis(aval(c.dialTimeout), time.Duration)
+//@   assert register_signed at call Serialize : [C18] register.Key == PublicKeyOf(config.ClientKey) && register.Hash == c.hash
+//@        && register.Signature == SignOf(config.ClientKey, regDigest(*register))
